@@ -634,3 +634,123 @@ M('c03-ascending-deletion', 'C03', 'fire:R3.5',
 M('c03-twin-separate-membership-tests', 'C03', 'silent',
   (Q, '''        if id not in self.queued_ids | self.active_ids:''',
    '''        if id not in self.queued_ids and id not in self.active_ids:''', 1))
+
+# ---------------------------------------------------------------- C12
+M('c12-wait-under-lock', 'C12', 'fire:Q1',
+  (Q, '''                self._check_ready(now)
+            finally:
+                self.queued_lock.release()
+            # Wait without holding the lock, so that flush() never has to
+            # wait for the scheduler to wake up.
+            self._wait_ready(now)''', '''                self._check_ready(now)
+                self._wait_ready(now)
+            finally:
+                self.queued_lock.release()''', 1))
+M('c12-flush-keeps-ids', 'C12', 'fire:Q2',
+  (Q, '''            self.queued = []
+            self.queued_ids = set()''', '''            self.queued = []''', 1))
+M('c12-check-ready-keeps-ids', 'C12', 'fire:Q2',
+  (Q, '''            self.queued = self.queued[last_i:]
+            self.queued_ids = set([id for _, id in self.queued])''',
+   '''            self.queued = self.queued[last_i:]''', 1))
+M('c12-add-queued-no-wake', 'C12', 'fire:Q3',
+  (Q, '''            self.queued_ids.add(id)
+            self.wake.set()''', '''            self.queued_ids.add(id)''', 1))
+M('c12-wait-store-drops-entries', 'C12', 'fire:Q3',
+  (Q, '''                for entry in self.store.wait():
+                    self._add_queued(entry)''', '''                for entry in self.store.wait():
+                    if entry[0] > time.time():
+                        self._add_queued(entry)''', 1))
+M('c12-requeue-before-unmark', 'C12', 'fire:Q4',
+  (Q, '''                self.active_ids.discard(id)
+                self._add_queued((when, id))''', '''                self._add_queued((when, id))
+                self.active_ids.discard(id)''', 1))
+M('c12-prefix-advances-without-dispatch', 'C12', 'fire:Q5',
+  (Q, '''            if now >= timestamp:
+                self._pool_spawn('store', self._dequeue, entry_id)
+                last_i = i+1
+            else:
+                break''', '''            last_i = i+1
+            if now >= timestamp:
+                self._pool_spawn('store', self._dequeue, entry_id)
+            else:
+                break''', 1))
+M('c12-flush-clears-first', 'C12', 'fire:Q5',
+  (Q, '''            for entry in self.queued:
+                self._pool_spawn('store', self._dequeue, entry[1])
+            self.queued = []
+            self.queued_ids = set()''', '''            entries, self.queued = self.queued[1:], []
+            self.queued_ids = set()
+            for entry in entries:
+                self._pool_spawn('store', self._dequeue, entry[1])''', 1))
+M('c12-dispatch-early', 'C12', 'fire:Q6',
+  (Q, '''            if now >= timestamp:
+                self._pool_spawn('store', self._dequeue, entry_id)''',
+   '''            if now >= timestamp or i == 0:
+                self._pool_spawn('store', self._dequeue, entry_id)''', 1))
+M('c12-scan-continues-past-not-due', 'C12', 'fire:Q6',
+  (Q, '''                last_i = i+1
+            else:
+                break''', '''                last_i = i+1
+            else:
+                continue''', 1))
+M('c12-wait-unbounded', 'C12', 'fire:Q6',
+  (Q, '''            self.wake.wait(first_timestamp-now)''',
+   '''            self.wake.wait()''', 1))
+M('c12-twin-check-ready-flag', 'C12', 'silent',
+  (Q, '''            if now >= timestamp:
+                self._pool_spawn('store', self._dequeue, entry_id)
+                last_i = i+1
+            else:
+                break''', '''            if timestamp > now:
+                break
+            self._pool_spawn('store', self._dequeue, entry_id)
+            last_i = i+1''', 1))
+
+# ---------------------------------------------------------------- C13
+BO = 'slimta/bounce/__init__.py'
+M('c13-bounce-null-sender', 'C13', 'fire:B1',
+  (Q, '''        if envelope.sender:  # Can't bounce to null-sender.
+            self._pool_spawn('bounce', self._bounce, envelope, reply)''',
+   '''        self._pool_spawn('bounce', self._bounce, envelope, reply)''', 1))
+M('c13-bounce-from-retry', 'C13', 'fire:B1',
+  (Q, '''            when = time.time() + wait
+            self.store.set_timestamp(id, when)''', '''            when = time.time() + wait
+            if attempts > 5:
+                self._bounce(envelope, replies)
+            self.store.set_timestamp(id, when)''', 1))
+M('c13-bounce-has-sender', 'C13', 'fire:B2',
+  (BO, '''    #: this should usually be an empty string.
+    sender = \'\'
+''', '''    #: this should usually be an empty string.
+    sender = 'MAILER-DAEMON@localhost'
+''', 1))
+M('c13-bounce-to-recipients', 'C13', 'fire:B2',
+  (BO, '''recipients=[envelope.sender])''', '''recipients=envelope.recipients)''', 1))
+M('c13-always-new-group', 'C13', 'fire:B3',
+  (Q, '''            for reply, group_env in groups:
+                if replies[i] == reply:
+                    group_env.recipients.append(rcpt)
+                    break
+            else:
+                group_env = envelope.copy([rcpt])
+                groups.append((replies[i], group_env))''',
+   '''            group_env = envelope.copy([rcpt])
+            groups.append((replies[i], group_env))''', 1))
+M('c13-no-break-after-match', 'C13', 'fire:B3',
+  (Q, '''                    group_env.recipients.append(rcpt)
+                    break''', '''                    group_env.recipients.append(rcpt)''', 1))
+M('c13-partial-bounces-once', 'C13', 'fire:B3',
+  (Q, '''            for reply, group_env in self._split_by_reply(fail_env, replies):
+                self._perm_fail(None, group_env, reply)''',
+   '''            groups = self._split_by_reply(fail_env, replies)
+            self._perm_fail(None, groups[0][1], groups[0][0])''', 1))
+M('c13-bounce-enqueued-on-self', 'C13', 'fire:B4',
+  (Q, '''            return self.bounce_queue.enqueue(bounce)''',
+   '''            return self.enqueue(bounce)''', 1))
+M('c13-twin-guard-early-return', 'C13', 'silent',
+  (Q, '''        if envelope.sender:  # Can't bounce to null-sender.
+            self._pool_spawn('bounce', self._bounce, envelope, reply)''',
+   '''        if not envelope.sender:
+            return
+        self._pool_spawn('bounce', self._bounce, envelope, reply)''', 1))
